@@ -170,7 +170,7 @@ func (g *Graph) scan(fn *Func) {
 			if sig, ok := callee.Type().(*types.Signature); ok && sig.Recv() != nil {
 				recv = NamedPkgOf(sig.Recv().Type())
 			}
-			if kind := classifyCall(p, v, callee, full, recv); kind != "" {
+			if kind := ClassifyCall(p, v, callee, full, recv); kind != "" {
 				add(kind, v, v)
 			}
 			if fi := p.ByObj[callee]; fi != nil {
@@ -199,7 +199,7 @@ func (g *Graph) scan(fn *Func) {
 }
 
 // classifyCall names the primitive effect of a call, if it is one.
-func classifyCall(p *Prog, call *ast.CallExpr, callee *types.Func, full, recv string) string {
+func ClassifyCall(p *Prog, call *ast.CallExpr, callee *types.Func, full, recv string) string {
 	name := callee.Name()
 	root := RootPath + "."
 	switch recv {
